@@ -167,11 +167,11 @@ fn show(v: &Val) -> String {
         Val::A1(a) => format!("{}{}", hx(&a.x().to_slice()), hx(&a.y().to_slice())),
         Val::A2(a) => format!("{}{}", hx(&a.x().to_slice()), hx(&a.y().to_slice())),
         Val::Prep(_p) => {
-            #[cfg(john_yu_sm9_core_verif)]
+            #[cfg(all(john_yu_sm9_core_verif, not(john_yu_sm9_core_verif_skip_prep)))]
             {
                 format!("prepared {}", sm9_core::verif_hooks::prepared_len(_p))
             }
-            #[cfg(not(john_yu_sm9_core_verif))]
+            #[cfg(not(all(john_yu_sm9_core_verif, not(john_yu_sm9_core_verif_skip_prep))))]
             {
                 "prepared".to_string()
             }
@@ -421,7 +421,7 @@ fn exec(regs: &Regs, op: &str, p: &[&str]) -> R {
                     let mut rng = ScriptRng::parse(p[0])?;
                     Ok(Out::V(Val::Fr(Fr::random(&mut rng))))
                 }
-                #[cfg(john_yu_sm9_core_verif)]
+                #[cfg(all(john_yu_sm9_core_verif, not(john_yu_sm9_core_verif_skip_raw)))]
                 "raw" => Ok(Out::Bytes(hooks::limbs_be(sm9_core::verif_hooks::fr_limbs(&a_fr(regs, p[0])?)))),
                 _ => Err(format!("unknown op {}", op)),
             }
@@ -445,7 +445,7 @@ fn exec(regs: &Regs, op: &str, p: &[&str]) -> R {
                         Err(e) => Out::Err(format!("{:?}", e)),
                     })
                 }
-                #[cfg(john_yu_sm9_core_verif)]
+                #[cfg(all(john_yu_sm9_core_verif, not(john_yu_sm9_core_verif_skip_raw)))]
                 "raw" => Ok(Out::Bytes(hooks::limbs_be(sm9_core::verif_hooks::fq_limbs(&a_fq(regs, p[0])?)))),
                 _ => Err(format!("unknown op {}", op)),
             }
